@@ -54,6 +54,44 @@ def _related(a: str, b: str) -> bool:
     return a == b or a.startswith(b + '.') or b.startswith(a + '.')
 
 
+def _mutated_params(fn: FuncNode, nomut: T.Set[str]) -> T.Optional[T.Set[str]]:
+    """Parameters of `fn` whose object the body may modify: a store/del through the parameter, an augmented
+    assignment, a call (not known to be harmless) that mentions it, or an alias of it.  None: cannot tell."""
+    params = {a.arg for a in fn.args.posonlyargs + fn.args.args + fn.args.kwonlyargs}
+    out: T.Set[str] = set()
+    for n in ast.walk(fn):
+        if isinstance(n, (ast.Attribute, ast.Subscript)) and isinstance(n.ctx, (ast.Store, ast.Del)):
+            out |= names_in(n) & params
+        elif isinstance(n, ast.Call) and _callee(n) not in nomut:
+            out |= names_in(n) & params
+        elif isinstance(n, (ast.Assign, ast.AnnAssign, ast.NamedExpr, ast.Return, ast.Yield)) and getattr(n, 'value', None) is not None:
+            v = n.value
+            if isinstance(n, (ast.Return, ast.Yield)):
+                continue
+            tg = n.targets if isinstance(n, ast.Assign) else [n.target]
+            if not any(isinstance(x, ast.Name) for t in tg for x in ast.walk(t) if isinstance(getattr(x, 'ctx', None), ast.Store)):
+                continue     # stored into an attribute/item: the callee itself does not write through it
+            for x in ast.walk(v):        # `a = self` / `a = [p]`: an alias may be written through later
+                if isinstance(x, ast.Name) and x.id in params and not _only_read(v, x):
+                    out.add(x.id)
+        elif isinstance(n, (ast.Global, ast.Nonlocal)):
+            return None
+    return out
+
+
+def _only_read(v: ast.AST, name: ast.Name) -> bool:
+    """`name` occurs in `v` only below an attribute read / comparison / pure arithmetic (its object is not aliased)."""
+    if v is name:
+        return False
+    for n in ast.walk(v):
+        if isinstance(n, (ast.List, ast.Tuple, ast.Set, ast.Dict, ast.IfExp, ast.BoolOp, ast.Starred)):
+            if any(ch is name for ch in ast.iter_child_nodes(n)):
+                return False
+        if isinstance(n, ast.Call) and any(a is name for a in list(n.args) + [k.value for k in n.keywords]):
+            return False
+    return True
+
+
 class _State:
     def __init__(self, env: T.Optional[T.Dict[str, ast.expr]] = None, stale: T.Optional[T.Dict[str, str]] = None):
         self.env: T.Dict[str, ast.expr] = dict(env or {})
@@ -96,6 +134,13 @@ class _Sub(ast.NodeTransformer):
         self.st = st
         self.shadow = shadow
 
+    def visit_Lambda(self, n: ast.Lambda) -> ast.AST:
+        # a closure reads its free variables when it is *called*: never substitute into it
+        for x in ast.walk(n.body):
+            if isinstance(x, ast.Name) and x.id not in self.shadow and (x.id in self.st.env or x.id in self.st.stale):
+                raise _StaleRead(x.id, 'captured by a lambda')
+        return n
+
     def visit_Name(self, n: ast.Name) -> ast.AST:
         if not isinstance(n.ctx, ast.Load) or n.id in self.shadow:
             return n
@@ -107,7 +152,13 @@ class _Sub(ast.NodeTransformer):
 
 
 class Normaliser:
-    def __init__(self, calls: T.Iterable[str] = (), budget: int = 6000):
+    def __init__(self, calls: T.Iterable[str] = (), budget: int = 6000, module: T.Optional[ast.Module] = None):
+        self.callees: T.Dict[str, T.List[FuncNode]] = {}
+        self._summary: T.Dict[int, T.Optional[T.Set[str]]] = {}
+        if module is not None:
+            for n in ast.walk(module):
+                if isinstance(n, (ast.FunctionDef, ast.AsyncFunctionDef)):
+                    self.callees.setdefault(n.name, []).append(n)
         self.pure = set(INLINE_CALLS) | set(calls)
         self.nomut = self.pure | NOMUT_CALLS
         self.budget = budget
@@ -137,13 +188,48 @@ class Normaliser:
                 return False
         return True
 
+    def may_change(self, c: ast.Call) -> T.Set[str]:
+        """Root names of the objects a call may modify.  With a module at hand, a call of the only function/method
+        of that name in the module is answered from a summary of the callee (which parameters it stores into or
+        hands to calls that are not known to be harmless); otherwise: every object the call mentions."""
+        everything = names_in(c)
+        d = self.callees.get(_callee(c), [None, None])
+        if len(d) != 1 or d[0] is None or any(isinstance(a, ast.Starred) for a in c.args) or any(k.arg is None for k in c.keywords):
+            return everything
+        fn = d[0]
+        if isinstance(c.func, ast.Attribute) and not fn.name.startswith('_') and attr_chain(c.func.value) not in ('self', 'cls'):
+            return everything      # a public method name on some other object: it need not be this module's function
+        if id(fn) not in self._summary:
+            self._summary[id(fn)] = _mutated_params(fn, self.nomut)
+        mutated = self._summary[id(fn)]
+        if mutated is None or fn.args.vararg or fn.args.kwarg:
+            return everything
+        params = [a.arg for a in fn.args.posonlyargs + fn.args.args]
+        actual: T.Dict[str, ast.AST] = {}
+        pos = list(c.args)
+        if isinstance(c.func, ast.Attribute) and params and params[0] in ('self', 'cls'):
+            pos = [c.func.value] + pos
+        elif not isinstance(c.func, ast.Name):
+            return everything
+        if len(pos) > len(params):
+            return everything
+        for p_, a in zip(params, pos):
+            actual[p_] = a
+        for k in c.keywords:
+            actual[k.arg] = k.value                                      # type: ignore[index]
+        out: T.Set[str] = set()
+        for p_ in mutated:
+            if p_ in actual:
+                out |= names_in(actual[p_])
+        return out
+
     def call_kills(self, node: T.Optional[ast.AST], st: _State) -> None:
-        """Calls that are not known to be pure may mutate any object they mention."""
+        """Calls that are not known to be pure may mutate the objects they are given."""
         if node is None:
             return
         for c in ast.walk(node):
             if isinstance(c, ast.Call) and _callee(c) not in self.nomut:
-                for r in names_in(c):
+                for r in self.may_change(c):
                     st.kill_root(r, f'call {short(c, 60)} may change `{r}`')
 
     # -- statements ----------------------------------------------------------
@@ -179,7 +265,7 @@ class Normaliser:
                     if c is not None:
                         root = c.split('.')[0]
                         if root in st.env or root in st.stale:
-                            raise Undecided(f'store through the substituted local `{root}` in {short(t)}')
+                            raise _StaleRead(root, f'stored through in `{short(t, 40)}`')
                         st.kill_chain(c, f'`{short(t, 40)}` is assigned')
                     else:
                         for r in names_in(base):
@@ -195,6 +281,29 @@ class Normaliser:
                 targets = [s.target]
             else:
                 targets = s.targets
+            if len(targets) == 1 and isinstance(targets[0], ast.Tuple) and isinstance(s.value, ast.Tuple) \
+                    and len(targets[0].elts) == len(s.value.elts) and all(isinstance(t, ast.Name) for t in targets[0].elts) \
+                    and not any(isinstance(x, ast.Starred) for x in s.value.elts):
+                # `a, b = x, y`: all values are read before any name is bound
+                vals = [self.expr(x, st) for x in s.value.elts]
+                for x in vals:
+                    self.call_kills(x, st)
+                out: T.List[ast.stmt] = []
+                binds: T.List[T.Tuple[str, ast.expr]] = []
+                for t, x in zip(targets[0].elts, vals):
+                    name = t.id                                          # type: ignore[attr-defined]
+                    if self.substitutable(x) and name not in self.nodrop:
+                        binds.append((name, x))
+                    else:
+                        st.rebind_opaque(name, f'`{name}` is rebound to {short(x, 40)}')
+                        out.append(ast.copy_location(ast.Assign(targets=[ast.Name(id=name, ctx=ast.Store())], value=x), s))
+                if out and binds:
+                    raise Undecided(f'mixed parallel assignment {short(s)}')
+                for name, x in binds:
+                    st.stale.pop(name, None)
+                    st.env[name] = x
+                    self.dropped.add(name)
+                return out
             v = self.expr(s.value, st)
             self.call_kills(v, st)
             if len(targets) == 1 and isinstance(targets[0], ast.Name):
@@ -213,7 +322,7 @@ class Normaliser:
             self.call_kills(v, st)
             if isinstance(s.target, ast.Name):
                 if s.target.id in st.env or s.target.id in st.stale:
-                    raise Undecided(f'augmented assignment to the substituted local `{s.target.id}`')
+                    raise _StaleRead(s.target.id, f'updated in place by `{short(s, 40)}`')
                 st.rebind_opaque(s.target.id, f'`{short(s, 40)}`')
                 tgt: ast.expr = copy.deepcopy(s.target)
             else:
@@ -237,6 +346,9 @@ class Normaliser:
         if isinstance(s, (ast.Pass, ast.Break, ast.Continue, ast.Import, ast.ImportFrom, ast.Global, ast.Nonlocal)):
             return [s]
         if isinstance(s, (ast.FunctionDef, ast.AsyncFunctionDef, ast.ClassDef)):
+            for x in ast.walk(s):
+                if isinstance(x, ast.Name) and (x.id in st.env or x.id in st.stale or x.id in self.dropped):
+                    raise _StaleRead(x.id, f'captured by the nested definition {s.name}')
             st.rebind_opaque(s.name, f'definition of {s.name}')
             return [s]
         if isinstance(s, (ast.For, ast.AsyncFor, ast.While, ast.With, ast.AsyncWith, ast.Try)) or s.__class__.__name__ == 'TryStar':
@@ -285,7 +397,7 @@ class Normaliser:
         for c in ast.walk(s):
             if isinstance(c, ast.Call) and _callee(c) not in self.nomut:
                 # conservatively: the raw names of the call (before substitution) and whatever their definitions read
-                for r in names_in(c):
+                for r in self.may_change(c):
                     for rr in ({r} | (names_in(probe.env[r]) if r in probe.env else set())):
                         st.kill_root(rr, f'call {short(c, 60)} in a nested block may change `{rr}`')
         if isinstance(s, ast.While):
@@ -323,15 +435,19 @@ class Normaliser:
 
 
 def normalise(fn: FuncNode, *, body: T.Optional[T.List[ast.stmt]] = None, calls: T.Iterable[str] = (),
-              env: T.Optional[T.Dict[str, ast.expr]] = None) -> FuncNode:
+              env: T.Optional[T.Dict[str, ast.expr]] = None, module: T.Optional[ast.Module] = None) -> FuncNode:
     """A copy of `fn` whose body (or `body`, e.g. one loop body of it) is tail-duplicated and has its locals
     forward-substituted.  `calls`: additional callee names whose calls may be treated as pure values
-    (e.g. {'intersect'} for the copy-returning Range.intersect)."""
+    (e.g. {'intersect'} for the copy-returning Range.intersect).  `module`: the module tree, to answer "what may this
+    call modify" from the callee's own stores instead of assuming the worst."""
     if any(isinstance(n, (ast.Yield, ast.YieldFrom, ast.Await)) for n in ast.walk(fn)):
         raise Undecided(f'{fn.name}: generator/coroutine bodies are not normalised')
     nodrop: T.Set[str] = set()
+    for n in ast.walk(fn):
+        if isinstance(n, (ast.Global, ast.Nonlocal)):
+            nodrop |= set(n.names)
     while True:
-        nz = Normaliser(calls)
+        nz = Normaliser(calls, module=module)
         nz.nodrop = set(nodrop)
         try:
             new_body = nz.block(list(body if body is not None else fn.body), _State(env))
